@@ -7,7 +7,7 @@ Various mathy helpers.
 
 Minimal dependencies in this module.
 """
-from math import ceil, floor, fmod, isfinite, log2
+from math import ceil, floor, fmod, isfinite
 from typing import (
     Any,
     Iterator,
@@ -131,7 +131,7 @@ def align_up_pow2(x: int) -> int:
     """
     if x <= 0:
         return 1
-    return 2 ** int(ceil(log2(x)))
+    return 1 << (int(x) - 1).bit_length()
 
 
 def align_down_pow2(x: int) -> int:
